@@ -419,8 +419,16 @@ def q3(repo, res, canon, pc, logic):
         must_nonempty = False
         waited = False
         for e in p.events:
-            if e.kind == 'test' and canon.c(e.node, dfr) == pparam:
-                must_nonempty = e.pol
+            if e.kind == 'test':
+                tn, tp = e.node, e.pol
+                while isinstance(tn, ast.UnaryOp) and isinstance(tn.op, ast.Not):
+                    tn, tp = tn.operand, not tp
+                if isinstance(tn, ast.Compare) and len(tn.ops) == 1 and isinstance(tn.ops[0], (ast.Gt, ast.NotEq)) \
+                        and isinstance(tn.left, ast.Call) and call_name(tn.left) == 'len' and isinstance(
+                            tn.comparators[0], ast.Constant) and tn.comparators[0].value == 0:
+                    tn = tn.left.args[0]          # len(x) > 0
+                if canon.c(tn, dfr) == pparam:
+                    must_nonempty = tp
             if e.kind == 'stmt':
                 for y in ast.walk(e.node):
                     if isinstance(y, ast.Yield) and isinstance(y.value, ast.Call) and call_name(y.value) == 'timeout' \
